@@ -63,7 +63,13 @@ pub fn check(_ctx: &Ctx, st: &mut Stats, c: &Case, id: &str) {
     };
     let dhs = secs(&dh);
     let dd = o::date_dec(date, gmt);
-    let get = |pr: Prayer| res.get(&pr).and_then(|x| x.ok());
+    // under a policy only UNFLAGGED entries are "reported by conventional calculation" (C08): those are judged,
+    // flagged ones are counted and skipped; with policy None a flag is itself a violation
+    let with_policy = c.p.policy != "None";
+    let get = |pr: Prayer| res.get(&pr).and_then(|x| x.ok()).filter(|t| !(with_policy && t.extreme));
+    if with_policy {
+        st.count("cases_under_a_policy(unflagged entries judged)");
+    }
     let ctxj = |extra: serde_json::Value| json!({"case": c, "result": res_json(&res), "obs": extra});
     match id {
         "C02" => {
@@ -107,6 +113,9 @@ pub fn check(_ctx: &Ctx, st: &mut Stats, c: &Case, id: &str) {
                     let (a, b) = (res.get(&pr).copied().flatten_ok(), res2.get(&pr).copied().flatten_ok());
                     match pr {
                         Prayer::Shurooq | Prayer::Maghrib => match (a, b) {
+                            (Some(x), Some(y)) if with_policy && (x.extreme || y.extreme) => {
+                                st.count("excluded.flagged_entry_under_policy");
+                            }
                             (Some(x), Some(y)) => {
                                 let dlt = off(secs(&y), secs(&x));
                                 st.margin("weather_shift_s", dlt, 60.0, || ctxj(json!({"prayer": format!("{pr:?}"), "with_weather": y.time.to_string()})));
@@ -128,7 +137,10 @@ pub fn check(_ctx: &Ctx, st: &mut Stats, c: &Case, id: &str) {
                                 Prayer::Fajr | Prayer::Imsaak => p.intervals[&Prayer::Fajr] != 0.0,
                                 _ => false,
                             };
-                            if !derived && a != b {
+                            let flagged = |x: Option<PrayerTime>| x.map(|t| t.extreme).unwrap_or(false);
+                            if with_policy && (flagged(a) || flagged(b)) {
+                                st.count("excluded.flagged_entry_may_derive_from_shurooq_maghrib");
+                            } else if !derived && a != b {
                                 st.violate("weather_moves_underived_time", c, json!({"prayer": format!("{pr:?}"), "without": res_json(&res), "with": res_json(&res2)}));
                             }
                         }
@@ -200,6 +212,9 @@ pub fn check(_ctx: &Ctx, st: &mut Stats, c: &Case, id: &str) {
                     let Some(Ok(dh2)) = res2.get(&Prayer::Dhuhr).copied() else { return };
                     for (pr, before) in [(Prayer::Fajr, true), (Prayer::Imsaak, true), (Prayer::Isha, false)] {
                         if let (Some(x), Some(Ok(y))) = (get(pr), res2.get(&pr).copied()) {
+                            if with_policy && y.extreme {
+                                continue;
+                            }
                             let (ox, oy) = if before { (off_before(secs(&x), dhs), off_before(secs(&y), secs(&dh2))) } else { (off(secs(&x), dhs), off(secs(&y), secs(&dh2))) };
                             let bad = if before { oy > ox } else { oy < ox };
                             st.count("monotonicity_checks");
@@ -251,7 +266,7 @@ pub fn check(_ctx: &Ctx, st: &mut Stats, c: &Case, id: &str) {
             let mut p2 = p.clone();
             p2.asr_shadow_ratio = if k == 1.0 { AsrShadowRatio::Hanafi } else { AsrShadowRatio::Shafi };
             if let Ok(res2) = call(st, &p2, l, date, None) {
-                if let (Some(Ok(t2)), Some(Ok(dh2))) = (res2.get(&Prayer::Asr).copied(), res2.get(&Prayer::Dhuhr).copied()) {
+                if let (Some(Ok(t2)), Some(Ok(dh2))) = (res2.get(&Prayer::Asr).copied().filter(|x| !matches!(x, Ok(t) if with_policy && t.extreme)), res2.get(&Prayer::Dhuhr).copied()) {
                     st.count("school_pairs");
                     let o2 = off(secs(&t2), secs(&dh2));
                     let (shafi, hanafi) = if k == 1.0 { (ofs, o2) } else { (o2, ofs) };
@@ -300,6 +315,11 @@ fn gen_case(r: &mut Rng, id: &str) -> Case {
     }
     if r.chance(0.5) {
         p.hanafi = Some(r.chance(0.5));
+    }
+    if r.chance(0.2) {
+        let pol = *r.pick(&POLICIES);
+        let pl = if is_nearest_lat(pol) { Some(r.range(-60.0, 60.0)) } else { None };
+        p = p.with_policy(pol, pl);
     }
     if id == "C04" && r.chance(0.5) {
         // zenith-passage generator: latitude within +-1.5 deg of the date's declination, or between equator and it
